@@ -17,7 +17,9 @@ Inductive case :=
 | WRsp (status : Z) (hdr : hmapS) (res : hfields)                        (* header map when the HEADERS frame was written *)
 | WRspTr (hdr1 hdr2 : hmapS) (res : option hfields)                      (* maps at writeHeader / at flushTrailers; None: no trailer section *)
 | WTr (tr : hmapS) (res : option hfields)                                (* WriteRequestTrailer *)
-| WPrep (date : string) (before after : hmapS).                          (* WriteHeader's defaults *)
+| WPrep (date : string) (before after : hmapS)                           (* WriteHeader's defaults *)
+| WDec (maxb enclen : Z) (truncated : bool) (fs : hfields) (res : dres)  (* decodeTrailers on real qpack bytes *)
+with dres := DErr (cls : Z) | DOk (m : hmapS).
 
 Definition fields_of (fs : hfields) : list field := map (fun p => F (hx (fst p)) (hx (snd p))) fs.
 Definition gomap_of (h : hmapS) : gomap := map (fun e => (hx (fst e), map hx (snd e))) h.
@@ -86,6 +88,12 @@ Definition check_case (c : case) : bool :=
   | WRspTr h1 h2 res => opt_perm res (rsp_trailers (declared_trailers (gomap_of h1)) (gomap_of h2))
   | WTr t res => opt_perm res (write_trailers (gomap_of t))
   | WPrep d b a => gomap_eq (rsp_prepare (hx d) (gomap_of b)) (gomap_of a)
+  | WDec mb el tr fs res =>
+    match res, decode_trailers mb el tr (fields_of fs) with
+    | DErr c, inl c' => c =? c'
+    | DOk m, inr m' => gomap_eq (gomap_of m) m' && gomap_eq m' (gomap_of m)
+    | _, _ => false
+    end
   end.
 
 (** what the model computes for a case (for the replay file) *)
@@ -93,7 +101,8 @@ Inductive obs :=
 | OReqW (r : option (list field * list field * list field))
 | OFields (r : list field)
 | OOpt (r : option (list field))
-| OMap (m : gomap).
+| OMap (m : gomap)
+| OCls (c : Z).
 Definition model_obs (c : case) : obs :=
   match c with
   | WReq _ _ _ _ _ _ _ _ _ _ _ => OReqW (model_req c)
@@ -101,4 +110,5 @@ Definition model_obs (c : case) : obs :=
   | WRspTr h1 h2 _ => OOpt (rsp_trailers (declared_trailers (gomap_of h1)) (gomap_of h2))
   | WTr t _ => OOpt (write_trailers (gomap_of t))
   | WPrep d b _ => OMap (rsp_prepare (hx d) (gomap_of b))
+  | WDec mb el tr fs _ => match decode_trailers mb el tr (fields_of fs) with inl c => OCls c | inr m => OMap m end
   end.
